@@ -262,7 +262,9 @@ public:
 	{
 		_thread = 0;
 		_threadFinished = false;
-		*this = start(f, this);
+		Thread t(start(f, this)); // only take the handle back: the finished flag belongs to the new thread now
+		_thread = t._thread;
+		t._thread = 0;
 	}
 	template<class Func>
 	static Thread start(const Func& f, Thread* t)
